@@ -1,7 +1,8 @@
 // acmex drives the acme parts of the real controller for spec/Acme.tla:
-//   -mode rows: every decision row through the real signer (real cache facade over the fake API server, stub acme client, hook H4);
-//   -mode hist: histories of ingress changes, sync kinds and leadership on the real pipeline, with a recording queue behind the
-//               real acme queue facade and the real leader elector over an in-memory lock.
+//
+//	-mode rows: every decision row through the real signer (real cache facade over the fake API server, stub acme client, hook H4);
+//	-mode hist: histories of ingress changes, sync kinds and leadership on the real pipeline, with a recording queue behind the
+//	            real acme queue facade and the real leader elector over an in-memory lock.
 package main
 
 import (
@@ -363,7 +364,9 @@ func runHist(base, id string, steps []step) ([]map[string]interface{}, error) {
 }
 
 func sortOps(o []op) {
-	sort.Slice(o, func(i, j int) bool { return o[i].Sec+strings.Join(o[i].Doms, ",") < o[j].Sec+strings.Join(o[j].Doms, ",") })
+	sort.Slice(o, func(i, j int) bool {
+		return o[i].Sec+strings.Join(o[i].Doms, ",") < o[j].Sec+strings.Join(o[j].Doms, ",")
+	})
 }
 
 func main() {
